@@ -30,3 +30,57 @@ package edns
 //@   modifies nothing
 //@   ensures len(result) <= 1
 //@   ensures len(result) == 1 ==> dyntype(result[0], *dns.OPT)
+//@   ensures (forall i int :: {extra[i]} 0 <= i && i < len(extra) ==> !dyntype(extra[i], *dns.OPT)) ==> len(result) == 0
+//@   loop 1 invariant forall j int :: {extra[j]} 0 <= j && j < rangeidx ==> !dyntype(extra[j], *dns.OPT)
+//@
+//@ # ---- C01 / C06: which replies have AD suppressed, and the negotiated UDP size
+//@ # AD is suppressed iff the client set CD, or set neither DO nor AD (do = the client's own DO bit)
+//@ func (*EDNS).ServeDNS
+//@   requires ch != nil
+//@   nosafety all
+//@   assert at store edns.ResponseWriter.noad#1: value == (req.CheckingDisabled || (!req.AuthenticatedData && !do))
+//@   assert at store edns.ResponseWriter.size#1: noedns ==> value == 512
+//@   assert at store edns.ResponseWriter.size#1: !noedns && value != 65535 ==> 512 <= value && value <= 1232
+//@   assert at store edns.ResponseWriter.noedns#1: value == (msgOPT(req) == nil)
+//@   assert at call internal/dnsutil.NotSupported#1: req.Opcode > 0
+//@   ensures calls("internal/dnsutil.NotSupported") == 1 ==> calls("(*middleware.Chain).Next") == 0 && calls("(*middleware.Chain).Cancel") == 1
+//@
+//@ func (*EDNS).serveWire
+//@   nosafety all
+//@   assert at store edns.ResponseWriter.noad#1: value == (reqCD(req) || (!reqAD(req) && !reqDO(req)))
+//@   assert at store edns.ResponseWriter.size#1: !reqHasOPT(req) ==> value == 512
+//@   assert at store edns.ResponseWriter.size#1: reqHasOPT(req) && value != 65535 ==> value == ite(int(reqUDPSize(req)) < 512, 512, ite(int(reqUDPSize(req)) > 1232, 1232, int(reqUDPSize(req))))
+//@   assert at store edns.ResponseWriter.do#1: value == reqDO(req)
+//@
+//@ # the per-request writer is wiped before it goes back to the pool / stays on the job slab: no cookie, flag or
+//@ # size of one client can leak into the next request served from the same writer
+//@ func (*EDNS).serveWire$1
+//@   nosafety all
+//@   ensures *rw == ResponseWriter{}
+//@ func (*EDNS).ServeDNS$1
+//@   nosafety all
+//@   assert at call (*sync.Pool).Put#1: *rw == ResponseWriter{}
+//@
+//@ # cookie / NSID helpers only add options to an OPT (possibly a new one) and cache the cookie text
+//@ func (*ResponseWriter).setCookie
+//@   trusted
+//@   modifies w.opt, w.cookie, heap(dns.OPT.Option), heap(dns.OPT.Hdr), allelems(dns.EDNS0)
+//@ func (*ResponseWriter).setNSID
+//@   trusted
+//@   modifies w.opt, heap(dns.OPT.Option), heap(dns.OPT.Hdr), allelems(dns.EDNS0)
+//@ func (*ResponseWriter).ensureOpt
+//@   requires w != nil
+//@   modifies w.opt
+//@   ensures result != nil && result == w.opt && (old(w.opt) != nil ==> result == old(w.opt))
+//@
+//@ # ---- C06 / C01 / C19: what the downstream writer is handed
+//@ func (*ResponseWriter).WriteMsg
+//@   requires w != nil && m != nil
+//@   nosafety all
+//@   assert at call (middleware.ResponseWriter).WriteMsg#1: w.noad ==> !arg1.AuthenticatedData
+//@   # the reply's option list as last written: after both strips it holds no ECS and no keepalive option; the only
+//@   # thing appended afterwards is the server's own keepalive, and only for a TCP client that asked (w.keepalive)
+//@   assert at store dns.OPT.Option#3: !w.noedns && forall i int :: {value[i]} 0 <= i && i < len(value) ==> !dyntype(value[i], *dns.EDNS0_SUBNET) && !dyntype(value[i], *dns.EDNS0_TCP_KEEPALIVE)
+//@   assert at store dns.OPT.Option#4: w.keepalive && forall i int :: {value[i]} 0 <= i && i < len(value) ==> !dyntype(value[i], *dns.EDNS0_SUBNET)
+//@   assert at call middleware/edns.stripECS#1: calls("middleware/edns.stripKeepalive") == 0
+//@   assert at call (middleware.ResponseWriter).WriteMsg#1: w.noedns ==> forall i int :: {arg1.Extra[i]} 0 <= i && i < len(arg1.Extra) ==> !dyntype(arg1.Extra[i], *dns.OPT)
